@@ -252,7 +252,38 @@ def uninstall():
     _lm.threading = _real_threading
 
 
+class TDict(dict):
+    """dict that records (without a scheduling point) stores and look-ups of string keys: the level tables of the
+    Core (`levels_ansi_codes`, `levels_lookup`) and a handler's `_precolorized_formats`"""
+
+    def __init__(self, data, tag):
+        super().__init__(data)
+        self.tag = tag
+
+    def __setitem__(self, k, v):
+        new = k not in self
+        super().__setitem__(k, v)
+        s = S()
+        if s is not None and isinstance(k, str) and s.me() is not None:
+            s.log_event("Wd", self.tag, (k, new))
+
+    def __getitem__(self, k):
+        s = S()
+        if s is not None and isinstance(k, str) and s.me() is not None:
+            s.log_event("Rd", self.tag, (k, k in self))
+        return super().__getitem__(k)
+
+    def copy(self):
+        return dict(self)
+
+
 class TCore(_lg.Core):
+    def __init__(self, *a, **kw):
+        super().__init__(*a, **kw)
+        object.__setattr__(self, "levels_ansi_codes", TDict(self.levels_ansi_codes, "core.levels_ansi_codes"))
+        object.__setattr__(self, "levels_lookup", TDict(self.levels_lookup, "core.levels_lookup"))
+        object.__setattr__(self, "builtin_levels", len(self.levels_ansi_codes))
+
     def __setattr__(self, k, v):
         s = S()
         if s is not None and k in CORE_SHARED:
@@ -294,7 +325,24 @@ class THandler(_hd.Handler):
         self._lock.tag = "h%d" % self._id
         if self._queue_lock is not None:
             self._queue_lock.tag = "q%d" % self._id
+        object.__setattr__(self, "_precolorized_formats", TDict(self._precolorized_formats, "h%d.pre" % self._id))
         object.__setattr__(self, "_verif_ready", True)
+        s = S()
+        if s is not None and s.me() is not None:
+            # the snapshot of the level table the new handler was built from
+            s.log_event("construct", "h%d" % self._id, len(self._levels_ansi_codes))
+
+    def update_format(self, level_id):
+        super().update_format(level_id)
+        s = S()
+        if s is not None and s.me() is not None and object.__getattribute__(self, "_verif_ready"):
+            s.log_event("upd", "h%d" % self._id, level_id)
+
+    def emit(self, record, level_id, *a, **kw):
+        s = S()
+        if s is not None and s.me() is not None:
+            s.log_event("visit", "h%d" % self._id, level_id)
+        return super().emit(record, level_id, *a, **kw)
 
     def __setattr__(self, k, v):
         if k == "_stopped":
